@@ -259,6 +259,24 @@ func retVals(ret *ssa.Return) []ssa.Value {
 		if !ok {
 			continue
 		}
+		// a slot captured by a function literal (or whose address escapes into a call) can be written elsewhere: the load
+		// stays the value
+		escapes := false
+		for _, ref := range *a.Referrers() {
+			switch x := ref.(type) {
+			case *ssa.MakeClosure:
+				escapes = true
+			case ssa.CallInstruction:
+				for _, arg := range x.Common().Args {
+					if arg == ssa.Value(a) {
+						escapes = true
+					}
+				}
+			}
+		}
+		if escapes {
+			continue
+		}
 		// last store to the slot in the same block before the load
 		blk := ret.Block()
 		var last ssa.Value
